@@ -5,7 +5,7 @@
 From Coq Require Import List NArith ZArith QArith Bool Floats SpecFloat.
 From Bignums Require Import BigZ.
 From Interval Require Import Specific_bigint Specific_ops Float_full Xreal Interval.
-From LinfaVerif Require Export Common.Num Common.NdSum Common.Run Common.B32 Common.QF C05.Model.
+From LinfaVerif Require Export Common.Num Common.NdSum Common.Run Common.B32 Common.QF C05.Model C05.ModelExt.
 Import ListNotations.
 
 Definition o32 := B32_ops.
@@ -349,7 +349,8 @@ Record regcase := {
   rg_id : N;
   rg_a : list float;            (* the receiver (prediction) *)
   rg_b : list float;            (* compare_to (ground truth) *)
-  rg_strided : bool;            (* compare_to is a column of a matrix with two or more columns *)
+  rg_lay : N;                   (* layout of the compare_to view: 0 = stride 1, 2 = stride -1, 1 = any other
+                                   stride (e.g. a column of a row-major matrix with two or more columns) *)
   rg_oracle : bool;             (* data are well conditioned: evaluate the exact specification *)
   rg_msle : bool;               (* all entries > -1: evaluate the msle enclosure *)
   rg_out : list float           (* max, mae, mse, medae, mape, r2, ev, msle *)
@@ -362,14 +363,14 @@ Definition cmp_opt (m : option float) (v : float) : bool :=
 Definition outn (c : regcase) (k : nat) : float := nth k (rg_out c) nan.
 
 Definition corr_reg (c : regcase) : N :=
-  let a := rg_a c in let b := rg_b c in let s := rg_strided c in
+  let a := rg_a c in let b := rg_b c in let s := layout_of_N (rg_lay c) in
   (flag (cmp_opt (max_error o64 a b) (outn c 0)) 4096
    + flag (cmp_opt (mean_absolute_error o64 a b) (outn c 1)) 8192
    + flag (cmp_opt (mean_squared_error o64 a b) (outn c 2)) 16384
    + flag (cmp_opt (median_absolute_error o64 a b) (outn c 3)) 32768
    + flag (cmp_opt (mean_absolute_percentage_error o64 a b) (outn c 4)) 65536
-   + flag (cmp_opt (r2 o64 c10 s a b) (outn c 5)) 131072
-   + flag (cmp_opt (explained_variance o64 c10 s a b) (outn c 6)) 262144)%N.
+   + flag (cmp_opt (r2_l o64 c10 s a b) (outn c 5)) 131072
+   + flag (cmp_opt (explained_variance_l o64 c10 s a b) (outn c 6)) 262144)%N.
 
 Definition qs (l : list float) : list Q := map f64_Q l.
 Definition c10q : Q := f64_Q c10.
@@ -409,6 +410,47 @@ Definition oracle_reg (c : regcase) : N :=
   let ms := if rg_msle c then flag (in_encl (1 # 68719476736) (msle_encl (rg_a c) (rg_b c)) (f64_to_Q (outn c 7))) 4194304
             else 0%N in
   (main + ms)%N.
+
+(** * Multi-target regression scores (f64): the whole matrix call *)
+Record mregcase := {
+  mg_id : N;
+  mg_A : list (list float); mg_qa : N;     (* rows of the receiver and its number of columns *)
+  mg_B : list (list float); mg_qb : N;     (* rows of compare_to and its number of columns *)
+  mg_lay : N;                              (* layout of the columns of compare_to (as rg_lay) *)
+  mg_oracle : list bool;                   (* per column pair: well conditioned, evaluate the specification *)
+  mg_ok : list bool;                       (* per score: the call returned Ok *)
+  mg_out : list (list float)               (* per score (max, mae, mse, medae, mape, r2, ev, msle): the vector *)
+}.
+
+Definition cmp_vec (m : option (list float)) (ok : bool) (v : list float) : N :=
+  match m with
+  | Some x => if ok then flag (f64s_eqb x v) 4194304 else 8388608%N
+  | None => flag (negb ok) 8388608
+  end.
+
+(* the first seven scores are compared bit for bit (mean_squared_log_error goes through f64::ln) *)
+Definition corr_mreg (c : mregcase) : N :=
+  let ms := multi_scores o64 (fun x => x) c10 (layout_of_N (mg_lay c))
+                         (N.to_nat (mg_qa c)) (N.to_nat (mg_qb c)) (mg_A c) (mg_B c) in
+  lor_list (map (fun k => cmp_vec (nth k ms None) (nth k (mg_ok c) false) (nth k (mg_out c) []))
+                (seq 0 7)).
+
+(* the result of every score is a vector with one entry per zipped column pair, and entry j is the
+   single-target definition on column j of both matrices (oracle_reg on the column pair; the
+   explained_variance bit of finding F2 is left to the single-target cases, where the input class of
+   the finding is decidable per case) *)
+Definition col64 (M : list (list float)) (j : nat) : list float := map (fun r => nth j r nan) M.
+Definition oracle_mreg (c : mregcase) : N :=
+  let q := Nat.min (N.to_nat (mg_qa c)) (N.to_nat (mg_qb c)) in
+  let shape_ok := Nat.eqb (length (mg_ok c)) 8 && Nat.eqb (length (mg_out c)) 8 &&
+                  forallb (fun b : bool => b) (mg_ok c) &&
+                  forallb (fun v : list float => Nat.eqb (length v) q) (mg_out c) in
+  if negb shape_ok then 134217728%N else
+  lor_list (map (fun j =>
+     let rc := {| rg_id := mg_id c; rg_a := col64 (mg_A c) j; rg_b := col64 (mg_B c) j; rg_lay := mg_lay c;
+                  rg_oracle := nth j (mg_oracle c) false; rg_msle := false;
+                  rg_out := map (fun v => nth j v nan) (mg_out c) |} in
+     N.ldiff (oracle_reg rc) 2097152) (seq 0 q)).
 
 (** * Silhouette (f64) *)
 Record silcase := {
@@ -476,6 +518,12 @@ Definition oracle_pea (c : peacase) : N :=
     flag (Nat.eqb (length (pe_coeffs c)) (length pairs) &&
           forallb (fun t => let '(r, (i, j)) := t in
                             let x := nth i C [] in let y := nth j C [] in
+                            (* a column without spread has standard deviation exactly 0 (its centred
+                               values are all equal, Welford's sum of squares stays 0): the code divides
+                               by it, the coefficient is undefined and must not be a finite number *)
+                            if Qeq_bool (nth i V 0) 0 || Qeq_bool (nth j V 0) 0
+                            then negb (f64_finite r)
+                            else
                             match f64_to_Q r with
                             | Some rq => pearson_close tol64 rq (dotp oQ x y) (nth i V 0) (nth j V 0)
                             | None => false
@@ -485,7 +533,8 @@ Definition oracle_pea (c : peacase) : N :=
 
 (** * Driver *)
 Inductive case :=
-| CCm (c : cmcase) | CRoc (c : roccase) | CReg (c : regcase) | CSil (c : silcase) | CPea (c : peacase).
+| CCm (c : cmcase) | CRoc (c : roccase) | CReg (c : regcase) | CSil (c : silcase) | CPea (c : peacase)
+| CMreg (c : mregcase).
 
 Definition run_case (c : case) : verdict :=
   match c with
@@ -494,5 +543,6 @@ Definition run_case (c : case) : verdict :=
   | CReg c => (rg_id c, (corr_reg c, oracle_reg c))
   | CSil c => (sl_id c, (corr_sil c, oracle_sil c))
   | CPea c => (pe_id c, (corr_pea c, oracle_pea c))
+  | CMreg c => (mg_id c, (corr_mreg c, oracle_mreg c))
   end.
 Definition run_cases (cs : list case) : list N := report (map run_case cs).
